@@ -23,7 +23,7 @@ type c10Server struct {
 	conns     []*c10Conn
 	dialFail  int // index of the dial that fails (-1 none)
 	faultConn int // connection index the fault applies to
-	faultOp   int // 0 none, 1 write fails, 2 read EOF instead of response, 3 read reset instead of response, 4 server closes right after replying
+	faultOp   int // 0 none, 1 write fails, 2 read EOF instead of response, 3 read reset instead of response, 4 server closes right after replying, 5 unsolicited message then write failure, 6 read reports a closed transport (net.ErrClosed) instead of a response, 7 write reports a closed transport
 	reachable bool
 }
 
@@ -35,6 +35,7 @@ type c10Conn struct {
 	closed    bool // closed by the client
 	peerEOF   bool
 	peerReset bool
+	peerClosed bool
 	eofAfter  bool
 }
 
@@ -66,9 +67,11 @@ func (s *c10Server) release() {
 	}
 }
 
-// faultConn -2: the fault hits every connection
+// faultConn -2: the fault hits every one of the first twelve connections (a
+// client that keeps redialing beyond its retry budget gets through in the end,
+// so that its transmissions can be counted)
 func (c *c10Conn) faulty(op int) bool {
-	return (c.srv.faultConn == c.idx || c.srv.faultConn == -2) && c.srv.faultOp == op
+	return (c.srv.faultConn == c.idx || c.srv.faultConn == -2 && c.idx < 12) && c.srv.faultOp == op
 }
 
 func (c *c10Conn) VerifSendMsg(msg any) error {
@@ -79,6 +82,11 @@ func (c *c10Conn) VerifSendMsg(msg any) error {
 	if c.peerReset || c.faulty(1) || c.faulty(5) {
 		return errC10Reset
 	}
+	if c.faulty(7) {
+		// counted as a transmission attempt: the request reached the transport
+		c.srv.seen = append(c.srv.seen, msg.(*kmip.RequestMessage).Header.ClientCorrelationValue)
+		return net.ErrClosed
+	}
 	req := msg.(*kmip.RequestMessage)
 	id := req.Header.ClientCorrelationValue
 	c.srv.seen = append(c.srv.seen, id)
@@ -88,6 +96,10 @@ func (c *c10Conn) VerifSendMsg(msg any) error {
 	}
 	if c.faulty(3) {
 		c.peerReset = true
+		return nil
+	}
+	if c.faulty(6) {
+		c.peerClosed = true
 		return nil
 	}
 	resp := &kmip.ResponseMessage{}
@@ -104,8 +116,8 @@ func (c *c10Conn) VerifSendMsg(msg any) error {
 }
 
 func (c *c10Conn) VerifRecvMsg(ptr any) error {
-	verifBlock(func() bool { return c.closed || len(c.pending) > 0 || c.peerEOF || c.peerReset || c.eofAfter })
-	if c.closed {
+	verifBlock(func() bool { return c.closed || len(c.pending) > 0 || c.peerEOF || c.peerReset || c.eofAfter || c.peerClosed })
+	if c.closed || c.peerClosed && len(c.pending) == 0 {
 		return net.ErrClosed
 	}
 	if len(c.pending) > 0 {
@@ -294,7 +306,7 @@ func VerifC11_CloseAfterFailedDial() {
 }
 
 // VerifC11_AlwaysFailing: every connection accepts the request and then ends
-// without replying (kind 2: end of stream, 3: reset): the call returns an error
+// without replying (kind 2: end of stream, 3: reset, 6: closed transport on read, 7: closed transport on write): the call returns an error
 // after a bounded number of transmissions, and recovers once the server is back.
 func VerifC11_AlwaysFailing(kind int) {
 	s := &c10Server{dialFail: -1, faultConn: -2, faultOp: kind}
